@@ -4,6 +4,7 @@ C08 instance: the listener-protocol model of Model/C08 instantiated with the tab
 the property names: frontend.NewContext() (no filters) and frontend.DefaultCypherContext().
 -/
 import Dawgs.Model.C08
+import Dawgs.Model.C08Parts
 import Dawgs.Model.C09
 import Dawgs.Generated.Grammar
 import Dawgs.Generated.Visitors
@@ -51,6 +52,10 @@ def expectedEnterEveryRule : String := "func (s *Context) EnterEveryRule(ctx ant
 def expectedExitEveryRule : String := "func (s *Context) ExitEveryRule(ctx antlr.ParserRuleContext) { currentVisitorEntry := s.visitorStack[len(s.visitorStack)-1] if currentVisitorEntry.depth == 0 { currentVisitorEntry = s.visitorStack[len(s.visitorStack)-2] } currentVisitorEntry.depth-- ctx.ExitRule(currentVisitorEntry.visitor) }"
 def expectedVisitTerminal : String := "func (s *Context) VisitTerminal(node antlr.TerminalNode) { s.visitorStack[len(s.visitorStack)-1].visitor.VisitTerminal(node) }"
 def expectedVisitErrorNode : String := "func (s *Context) VisitErrorNode(node antlr.ErrorNode) { s.visitorStack[len(s.visitorStack)-1].visitor.VisitErrorNode(node) }"
+
+/-- the Parts / partIdx bookkeeping table of MultiPartQueryVisitor (Generated/Visitors.lean) -/
+def PT : PartsTab := Generated.Visitors.partsOps
+def expectedCurrentPart : String := "func (s *MultiPartQuery) CurrentPart() *MultiPartQueryPart { return s.Parts[len(s.Parts)-1] }"
 
 /-- F7 witness: the ANTLR parse tree of `CALL foo.bar()` (dumped by the harness; leaves are "<tokenType>:<text>") -/
 def callTree : Tree :=
